@@ -56,12 +56,18 @@ def is_structural_zero(x):
     return x == 0
 
 
-def candidate(eng, acc, task, kind, sig, detail, inputs, seed=0, n=4):
+MAX_CANDIDATES_PER_JOB = 4
+
+
+def candidate(eng, acc, task, kind, sig, detail, inputs, seed=0, n=8):
     """record a violation candidate with concrete instantiations of the symbolic inputs"""
     envs = concretize.instantiate(eng, seed=seed, n=n)
     insts = [concretize.evaluate(inputs, env) for env in envs]
     acc.add('candidates', dict(task=task.get('name'), kind=kind, sig=sig, detail=str(detail)[:400],
                                decisions=[e[0] for e in eng.prefix][:80], insts=insts))
+    if acc.get('#candidates') >= MAX_CANDIDATES_PER_JOB:
+        from symx.engine import StopExploration
+        raise StopExploration()
 
 
 def sparsity_vcs(eng, acc, T, qnums, what):
